@@ -431,10 +431,16 @@ func (w *lifeWorld) doCmd(c Cmd, next time.Duration, lst *PeerActor) bool {
 				simrt.Violate("C04", "effect.verify_not_stopped", "Verify() did not end in Stopped within 9 minutes: status %s", st.Status)
 			} else if st.Error == nil {
 				ok := DiskState(sut.FS, w.dir, T, false)
-				good := 0
-				for _, b := range ok {
+				// A piece whose content is all zeros is "correct on disk" as soon as its file
+				// exists, also a file the client has just created empty: a verification that
+				// found no file to read rightly reports nothing. Such pieces may or may not count.
+				good, goodNZ := 0, 0
+				for i, b := range ok {
 					if b {
 						good++
+						if !allZero(T.Piece(i)) {
+							goodNZ++
+						}
 					}
 				}
 				w.mu.Lock()
@@ -443,8 +449,8 @@ func (w *lifeWorld) doCmd(c Cmd, next time.Duration, lst *PeerActor) bool {
 				switch {
 				case int(st.Pieces.Have) > good:
 					simrt.Violate("C04", "effect.verify_result", "after Verify() the torrent reports %d pieces, only %d are correct on disk", st.Pieces.Have, good)
-				case int(st.Pieces.Have) != good && !lateWrite:
-					simrt.Violate("C04", "effect.verify_result", "after Verify() the torrent reports %d pieces, %d are correct on disk", st.Pieces.Have, good)
+				case int(st.Pieces.Have) < goodNZ && !lateWrite:
+					simrt.Violate("C04", "effect.verify_result", "after Verify() the torrent reports %d pieces, %d are correct on disk", st.Pieces.Have, goodNZ)
 				case int(st.Pieces.Have) != good:
 					// a piece write that was in flight when the torrent was stopped for the
 					// verification landed after its file had been checked: the result describes
@@ -532,6 +538,16 @@ func (w *lifeWorld) mutate(c Cmd) {
 	switch c.Kind {
 	case "corrupt":
 		pi := c.N % T.NumPieces
+		if len(T.ZeroRuns) > 0 && c.N%2 == 1 {
+			// damage where the content is all zeros
+			z := T.ZeroRuns[(c.N/2)%len(T.ZeroRuns)]
+			if z[0] >= 0 && z[0] < T.Total {
+				pi = int(z[0] / int64(T.PieceLen))
+				if z[0]%int64(T.PieceLen) != 0 && pi+1 < T.NumPieces && z[1] > int64(T.PieceLen) {
+					pi++ // a piece wholly inside the run
+				}
+			}
+		}
 		if T.NonPadBytes(pi) == 0 {
 			return
 		}
@@ -887,6 +903,10 @@ func init() {
 				}
 			}
 			lp.Cmds = append(lp.Cmds, c)
+			if c.Kind == "corrupt" && r.Chance(0.5) {
+				// the damage is found by a verification and repaired by a download
+				lp.Cmds = append(lp.Cmds, Cmd{Gap: r.Dur(0, 2*time.Second), Kind: "verify"}, Cmd{Gap: r.Dur(11*time.Minute, 12*time.Minute), Kind: "start"}, Cmd{Gap: r.Dur(30*time.Second, 60*time.Second), Kind: "stats"})
+			}
 		}
 		if r.Chance(0.15) {
 			lp.Cmds = append(lp.Cmds, Cmd{Gap: gapOf(r), Kind: simrt.Pick(r, []string{"remove", "close"}), N: r.Intn(2)})
@@ -923,4 +943,13 @@ func init() {
 		}
 		p.Lifecycle = lp
 	}, Run: func(env *Env, p *Plan) { RunLifecycle(env, p.Lifecycle) }})
+}
+
+func allZero(b []byte) bool {
+	for _, v := range b {
+		if v != 0 {
+			return false
+		}
+	}
+	return true
 }
